@@ -237,6 +237,22 @@ pub fn gen_c05(tier: &str, seed: u64, out: &str, mc_replay: Option<&str>) -> Val
         let s: String = (0..len).map(|_| if hexonly { alphabet[rng.below(22) as usize] } else { *rng.pick(&alphabet) }).collect();
         strs.push(s);
     }
+    // one foreign character at every position of strings of the boundary lengths (byte lengths 8, 15..17, 32, 33)
+    for len in [8usize, 15, 16, 17, 32, 33] {
+        for pos in 0..len {
+            for (k, sep) in ['+', '-', ' ', 'x', 'é', 'g', 'F'].iter().enumerate() {
+                if tier != "thorough" && (pos + k + len) % 3 != 0 && *sep != '+' && *sep != 'é' { continue; }
+                let mut st = String::new();
+                let mut bytes = 0;
+                let mut i = 0;
+                while bytes < len {
+                    if i == pos { st.push(*sep); bytes += sep.len_utf8(); } else { st.push(char::from_digit(((i * 7 + len) % 16) as u32, 16).unwrap()); bytes += 1; }
+                    i += 1;
+                }
+                strs.push(st);
+            }
+        }
+    }
     let mut n_parse = 0u64;
     for s in &strs {
         t.emit(hexparse_event(s));
@@ -504,6 +520,24 @@ pub fn gen_c07(tier: &str, seed: u64, out: &str) -> Value {
         }
         t.emit(json!({"op": "levelend", "res": r + 1, "count": next.len()}));
         t.cut();
+    }
+    // digit-pattern cells at every resolution (first / last position of a quintant, alternating, single digits):
+    // children (default and explicit), parents, compositions
+    for r in 2..=29i32 {
+        let pats = digit_patterns((r - 1) as usize, &mut rng, 1);
+        for (k, &sp) in pats.iter().enumerate() {
+            if tier != "thorough" && k >= 8 && (k + r as usize) % 5 != 0 { continue; }
+            let face = ((k * 7 + r as usize) % 12) as u8;
+            let seg = (k + r as usize) % 5;
+            let c = serialize(&A5Cell { origin_id: face, segment: seg, s: sp, resolution: r }).unwrap();
+            if r < 29 { t.emit(children_event(c, None)); n_children += 1; }
+            for d in [1, 2, 4] { if r + d <= 29 { t.emit(children_event(c, Some(r + d))); n_children += 1; } }
+            t.emit(parentcomp_event(c, r - 1, (r - 3).max(-1)));
+            t.emit(parentcomp_event(c, r, 1.min(r)));
+            if r + 2 <= 29 { t.emit(childcomp_event(c, r + 1, r + 2)); }
+            n_comp += 3;
+            t.cut();
+        }
     }
     // deep: pattern + random cells to r = 29
     let ndeep = if tier == "thorough" { 6000 } else { 700 };
